@@ -15,8 +15,13 @@ CLAIMED = {
          "preservation of chain_id/name/resSeq/segment_id/element/serial/type/order and for re-pointing of bonds through an old->new map; "
          "equality => equal hash is decided as a field-set inclusion; list/counter pairing and PDB ATOM/CONECT numbering agreement are decided "
          "structurally.", _NOTE, "DESIGN.md §4 C04"),
+ "C19": ("CFG reachability (mutation -> schema-rejecting raise), sibling table of schema checks, dependence of defaults on the writer position, must-pass-through of flush/sync",
+         "For every streaming write() the persistent mutations and the argument-rejecting raises are enumerated and ordered on the CFG "
+         "(validate before mutate); stateful writers are cross-checked for atom-count and cell-presence checks; synthesised time/step defaults "
+         "must depend on the position; counters move after the data; headers once; flush reaches the backend sync on every exit. Crash "
+         "behaviour itself is not decided - only the ordering discipline it relies on.", _NOTE, "DESIGN.md §4 C19"),
 }
 _PENDING = "check not built yet in this round (design in DESIGN.md §4); will be claimed when its rules run clean"
-NA = {k: _PENDING for k in ["C01","C02","C05","C06","C07","C08","C09","C10","C11","C12","C13","C14","C15","C17","C18","C19"]}
+NA = {k: _PENDING for k in ["C01","C02","C05","C06","C07","C08","C09","C10","C11","C12","C13","C14","C15","C17","C18"]}
 NA["C16"] = ("every clause is numerical equality of computed arrays with closed-form expressions; no structural "
              "necessary condition covers more than one of the fifteen functions (DESIGN.md §5)")
